@@ -31,6 +31,10 @@ type HStep struct {
 	// Join (backend records): written in the same Conn.Write call as the next
 	// backend record of the history (a backend flushing several records at once).
 	Join bool `json:"join,omitempty"`
+	// SplitAt > 0 (client records, sequential histories): the record arrives in
+	// two parts; between them the caller's read deadline expires (a timeout
+	// error from the transport), the caller extends it and reads on.
+	SplitAt int `json:"split_at,omitempty"`
 	// SlowReturn (backend records, concurrent histories, first record of a
 	// Write): the transport has delivered the record but its Write only returns
 	// after the client's next record has been read by the pump.
@@ -228,6 +232,11 @@ type histIO struct {
 	out    func() []byte // every byte the client-side transport has received
 	closes func() int
 	pk     *string // set to "site: message" when a call into the library panicked
+	// feedSplit (sequential histories only): the record arrives as rec[:k], a
+	// read-deadline timeout, then rec[k:]. It returns what the reads before the
+	// timeout delivered, what the reads after it delivered, and the error (if
+	// any) the reads after it kept returning.
+	feedSplit func(rec []byte, k int) (before, after []byte, err error)
 	// slow (concurrent histories only): the next write returns late, see HStep.SlowReturn.
 	slow func()
 	// settle waits for a late write and reports its result.
@@ -266,6 +275,36 @@ func seqIO(b *built) *histIO {
 				var n int
 				n, err = conn.Read(buf)
 				got = append([]byte(nil), buf[:n]...)
+			})
+			return
+		},
+		feedSplit: func(rec []byte, k int) (before, after []byte, err error) {
+			sc.BlockErr = errReadTimeout
+			defer func() { sc.BlockErr = nil }()
+			sc.Feed(rec[:k])
+			guard(func() {
+				for i := 0; i < 4; i++ {
+					n, e := conn.Read(buf)
+					before = append(before, buf[:n]...)
+					if e != nil {
+						break
+					}
+				}
+			})
+			// the deadline is extended, the rest arrives
+			sc.Feed(rec[k:])
+			guard(func() {
+				for i := 0; i < 8; i++ {
+					n, e := conn.Read(buf)
+					after = append(after, buf[:n]...)
+					if e != nil {
+						err = e
+						break
+					}
+					if n == 0 {
+						break
+					}
+				}
 			})
 			return
 		},
@@ -609,6 +648,35 @@ func runHistory(prop string, seed uint64, p *HistoryPlan, b *built, io_ *histIO,
 				rInspect = false
 			}
 		}
+		if st.SplitAt > 0 && io_.feedSplit != nil && len(rec) > 6 {
+			k := 1 + st.SplitAt%(len(rec)-1)
+			before, after, lerr := io_.feedSplit(rec, k)
+			res.Probe("read_timeout_inside_record")
+			if *io_.pk != "" {
+				fail("panic", *io_.pk, "step %d: Read %s split at %d by a read timeout", i, st.Kind, k)
+				break
+			}
+			// What arrived before the timeout may be handed over as it is; after
+			// it the Conn either stays failed (nothing more is delivered) or
+			// carries on as if nothing had happened - never a third thing.
+			all := append(append([]byte(nil), before...), after...)
+			w2 := append([]byte(nil), wantFwd...)
+			if processed && len(all) >= 3 {
+				w2[1], w2[2] = all[1], all[2]
+			}
+			switch {
+			case len(after) == 0 && lerr != nil && bytes.HasPrefix(rec, before):
+				log = append(log, fmt.Sprintf("c %s split %d: failed for good after the timeout", st.Kind, k))
+			case expectAbort == nil && bytes.Equal(all, w2):
+				log = append(log, fmt.Sprintf("c %s split %d: resumed", st.Kind, k))
+				continue
+			case expectAbort != nil && lerr != nil && len(after) == 0:
+				log = append(log, fmt.Sprintf("c %s split %d: aborted", st.Kind, k))
+			default:
+				fail("history", "after a read timeout inside a "+st.Kind+" record the stream is neither failed nor continued correctly", "step %d, split at %d of %d: %d bytes before, %d bytes after (err=%v); expected the record as forwarded (%d bytes, processed=%v) or no more data", i, k, len(rec), len(before), len(after), lerr, len(w2), processed)
+			}
+			break
+		}
 		got, rerr := io_.feed(rec)
 		if io_.settle != nil {
 			if n, err, was := io_.settle(); was && err != nil && rerr == nil {
@@ -689,6 +757,9 @@ func genC06(seed uint64, idx int) *Plan {
 			st.SlowReturn = h.Concurrent && r.IntN(2) == 0
 		} else {
 			st = HStep{Side: "c", Kind: cKinds[r.IntN(len(cKinds))], A: r.IntN(1 << 20), RealCtx: r.IntN(2) == 0}
+			if !h.Concurrent && r.IntN(6) == 0 {
+				st.SplitAt = 1 + r.IntN(1<<16)
+			}
 		}
 		h.Steps = append(h.Steps, st)
 	}
